@@ -93,7 +93,7 @@ func (e *verifEOFSignal) Read(p []byte) (int, error) {
 // reads back valid from the store and the index describes the input.
 func VerifC06_ChunkStreamStall() {
 	vSchedFixed(true) // the stall fixes the interesting order; other orders are VerifC06_ChunkStream's subject
-	sizes := []int{721, 1600, 2300}
+	sizes := []int{721, 1600, 2300} // (a stream of more than 1024 chunks, ~75 kB, exceeds the step and time budgets: outside the bounds)
 	data := verifLongStream(sizes[vChoose("stream-length", len(sizes))])
 	release := make(chan struct{})
 	c, err := NewChunker(&verifEOFSignal{r: bytes.NewReader(data), release: release}, 48, 64, 72)
